@@ -75,7 +75,7 @@ def cases(tier, seed):
             for h in range(n_hist):
                 hist = agentops.random_history(rng, max_len, algo)
                 if h == 0:
-                    hist = ["learn", "learn"]  # optimizer moments non-zero, target lags
+                    hist = ["act", "learn", "learn", "act"]  # moments non-zero, target lags, acting state advanced
                 c = {
                     "algo": algo,
                     "obs": ok,
@@ -326,7 +326,7 @@ def run_case(case):
     except Exception as e:
         rec.crash(e, "crash", "discard", algo=algo)
 
-    has_hist = any(op == "learn" or op.startswith("mut:") for op in case["history"])
+    has_hist = any(op in ("learn", "act") or op.startswith("mut:") for op in case["history"])
     rec.nontrivial = has_hist and len(LP.values) >= 50 and trained
     return rec.result()
 
